@@ -1,4 +1,5 @@
 """C14 - isotopic distributions are normalised, centred on the right masses and complete."""
+import signal
 import itertools
 
 from vf.ref import atoms
@@ -21,7 +22,8 @@ RULE = ('compositions over C,H,N,O,S,P (normalisation and mean clauses also Se,C
 ASSUMPTIONS = ['the mean clause allows twice the deviation that the documented in-convolution floor (products below 1e-8 are '
                'dropped) produces in an independent replay, plus the resolution term and 1e-6',
                'lightest-peak clause only for elements whose lightest isotope is the most abundant one (C,H,N,O,S,P)',
-               'counts are cost-bounded: C,H,N,O,P <= 200, S <= 100, Cl/Br/Fe <= 60, Se <= 12',
+               'counts are cost-bounded: C,H,N,O,P <= 200, S <= 100, Cl/Br/Fe <= 60, Se <= 12; a single library call that '
+               'runs longer than 90 s wall clock is abandoned and counted as an inconclusive case (cost, never a verdict)',
                'binning clause: |neutron view - binned mass view| <= 1e-3 of the bin + 5e-5 of the base peak (fine-structure '
                'peaks under the documented 1e-8 floor are dropped from the mass view only)']
 LEVEL_TEXT = ('Every isotopic_distribution execution is checked by post-conditions against independent atomic data, an '
@@ -55,12 +57,32 @@ def install(ctx, st: State):
     return pt
 
 
+class CallTooSlow(BaseException):
+    pass
+
+
+def _too_slow(signum, frame):
+    raise CallTooSlow()
+
+
+CALL_WALL_S = 90.0     # wall clock never yields a verdict: a call over this budget is an inconclusive case
+SLOW = []
+
+
 def call(st, fn, *a, **k):
     st.case = {}
+    old = signal.signal(signal.SIGALRM, _too_slow)
+    signal.setitimer(signal.ITIMER_REAL, CALL_WALL_S)
     try:
         fn(*a, **k)
+    except CallTooSlow:
+        st.case = {'slow': True}
+        SLOW.append(repr((a, k))[:300])
     except Exception:
         pass
+    finally:
+        signal.setitimer(signal.ITIMER_REAL, 0)
+        signal.signal(signal.SIGALRM, old)
     c, st.case = st.case, None
     return c
 
@@ -119,7 +141,8 @@ def check_distribution(ctx, st, pt, comp, frac, opts, text=None):
         return
     dist = c.get('result')
     if dist is None:
-        ctx.inconclusive_case('monitor not reached')
+        ctx.inconclusive_case(f'call over the wall budget of {CALL_WALL_S:.0f}s (cost, no verdict): {case}'[:300]
+                              if c.get('slow') else 'monitor not reached')
         return
     if not dist:
         ctx.decided()
@@ -397,6 +420,7 @@ def run(ctx):
         ctx.sig(('merge', len(ds), len(exp), prec), len(ds) >= 2)
     for k2, v in st.clauses.items():
         ctx.extra['clause_' + k2] = v
+    ctx.extra['calls_over_wall_budget'] = len(SLOW)
 
 
 def reproduce(kf_id):
